@@ -68,7 +68,7 @@ class Tape(progs.RealExec):
                 for j, (v, old) in enumerate(zip(op.variables, rec[1])):
                     if v.data.shape != old.shape or not np.array_equal(v.data, old):
                         if _backward_reads(op, j):
-                            bad.append((type(op).__name__, j))
+                            bad.append((type(op).__name__, j, bool(v.constant)))
             stack.extend(op.variables)
             if len(seen) > 500:
                 break
@@ -119,8 +119,9 @@ def oracle_at(prog):
                 continue
             return ("raises-other", f"backward raised {r} (neither InvalidBackprop nor a result)", k)
         if stale:
-            op, j = stale[0]
-            return ("stale-values-used", f"backward() succeeded although input {j} of a recorded {op} no longer holds the value "
+            # a stale *non-constant* input first (the consumer-set check exists for those); a constant one otherwise
+            op, j, isc = sorted(stale, key=lambda x: x[2])[0]
+            return ("stale-values-used" + (":const-input" if isc else ""), f"backward() succeeded although input {j} of a recorded {op} no longer holds the value "
                     f"used in the forward pass (no InvalidBackprop was raised)", k)
     return None
 
